@@ -64,6 +64,8 @@ def main():
     ap.add_argument("prop")
     ap.add_argument("--tier", default=os.environ.get("VERIF_TIER", "quick"))
     ap.add_argument("--replay")
+    ap.add_argument("--no-evidence", action="store_true", help="do not rewrite evidence/<id>.json (used by the mutant suite on scratch copies)")
+    ap.add_argument("--no-replay", action="store_true", help="skip counterexample search / native replay")
     args = ap.parse_args()
     pid = args.prop
     tier = args.tier if args.tier in ("quick", "thorough") else "quick"
@@ -187,8 +189,8 @@ def main():
     if violations or extra_viol:
         from replay import replay as rp
         for i, v in enumerate(violations + extra_viol):
-            path = os.path.join(REPLAYS, "%s-%d.json" % (pid, i + 1))
-            found = rp.make_replay(pid, v, path, tier)
+            path = os.path.join(os.environ.get("VERIF_GEN") or REPLAYS, "%s-%d.json" % (pid, i + 1))
+            found = rp.make_replay(pid, v, path, tier, use_templates=not args.no_replay)
             replay_paths.append((path, found, v))
 
     level = spec.get("level", "proof")
@@ -233,8 +235,9 @@ def main():
         "wall_s": round(time.time() - t0, 2),
         "violations": len(violations) + len(extra_viol),
     }
-    with open(os.path.join(EVID, "%s.json" % pid), "w") as f:
-        json.dump(ev, f, indent=1)
+    if not args.no_evidence:
+        with open(os.path.join(EVID, "%s.json" % pid), "w") as f:
+            json.dump(ev, f, indent=1)
 
     for k, f in known_hits:
         print("KNOWN-FINDING: property=%s %s" % (pid, k["what_fails"]))
